@@ -86,7 +86,7 @@ hook_commits = [l.split()[0] for l in hooks if l.split(" ", 1)[1].startswith("ve
 
 m = {
  "version": 1,
- "setup_cmd": "cd /verif/engine && GOFLAGS=-mod=vendor GOPROXY=off GOSUMDB=off GOTOOLCHAIN=local go build -o /verif/bin/govc ./cmd/govc",
+ "setup_cmd": "cd /verif/engine && GOFLAGS=-mod=vendor GOPROXY=off GOSUMDB=off GOTOOLCHAIN=local go build -o /verif/bin/govc ./cmd/govc && GOFLAGS=-mod=vendor GOPROXY=off GOSUMDB=off GOTOOLCHAIN=local go build -o /verif/bin/timeconf ./cmd/timeconf",
  "hooks": {
   "guard": "verif",
   "enable": "the engine loads /repo with build tag verif (go/packages BuildFlags -tags=verif); guarded files: */contracts_verif.go (comment-only //@ contracts, read as text) and */lemmas_verif.go (lemma functions verified against contracts only)",
